@@ -25,6 +25,7 @@ dense side
     ``sector_support(dense, model, kind, rtol)`` -> set of total charges carrying weight
     ``schmidt_ranks(dense, model, kind)`` -> (ranks per bond 0..n, ambiguous flag)
     ``bond_sectors(dense, model, kind)`` -> per internal bond, the set of left-block charges carrying weight
+    ``sector_ranks(dense, model, kind)`` -> per internal bond, {left-block charge: rank of that block}
     ``exact_bond_bound(model, kind)`` -> min(prod left, prod right) per bond
 structure checks (independent of the library's own checkers)
     ``kind_of(mp)``  ``left_labels(mp)``  ``check_labels(mp, tol)`` -> list of problems
@@ -546,6 +547,34 @@ def bond_sectors(dense, model, kind, rtol=1e-9):
         ch = (ch[:, None, :] + sq[i - 1][None, :, :]).reshape(-1, q)
         w = np.linalg.norm(t.reshape(int(np.prod(p[:i])), -1), axis=1)
         out.append({tuple(int(x) for x in c) for c, x in zip(ch, w) if x > rtol * tot})
+    return out
+
+
+def sector_ranks(dense, model, kind, hi=1e-7):
+    """For every internal bond i = 1..n-1 a dict {left-block charge: numerical rank of the rows of the
+    bond-i matricisation that carry this charge} (singular values >= hi * largest singular value of the
+    whole matricisation).  A chain can only represent the object if, on every bond, it has at least
+    that many bond states labelled with that charge."""
+    t = _site_tensor(dense, model, kind)
+    sq = site_qn(model, kind)
+    p = list(t.shape)
+    n = len(p)
+    q = sq[0].shape[1]
+    ch = np.zeros((1, q), dtype=int)
+    out = []
+    for i in range(1, n):
+        ch = (ch[:, None, :] + sq[i - 1][None, :, :]).reshape(-1, q)
+        m = t.reshape(int(np.prod(p[:i])), -1)
+        top = np.linalg.svd(m, compute_uv=False)[0] if m.size else 0.0
+        d = {}
+        if top > 0:
+            for c in {tuple(int(x) for x in r) for r in ch}:
+                rows = np.all(ch == np.array(c), axis=1)
+                sv = np.linalg.svd(m[rows], compute_uv=False)
+                r = int(np.sum(sv >= hi * top))
+                if r:
+                    d[c] = r
+        out.append(d)
     return out
 
 
